@@ -251,11 +251,12 @@ def run_query(desc, seed, res):
                                   f"unit stores {v:#06x} for selector {int(sel)}, sequence returned {got!r}, expected {want!r}", wit)
                 if other.tc.log:
                     res.violation("C14/query/bystander", "a unit that was not addressed executed colour commands", wit)
-        # faults on each command of the sequence
-        v = 0x1234
-        for pos in range(4):
-            for fk in ("silence", "garble"):
-                bus, target, other, dest = mk_bus("short", values={int(sel): v})
+        # faults on each command of the sequence; stored values whose low byte is itself a selector the unit answers (a lost
+        # answer must not turn the byte left in DTR0 into the question)
+        for v, pos, fk in [(vv, pp, ff) for vv in (0x1234, 0x0180, 0x0182, 0x0102, 0x01C2, 0x0281, 0x00E2) for pp in range(4)
+                           for ff in ("silence", "garble")]:
+            if True:
+                bus, target, other, dest = mk_bus("short", values={int(sel): v}, limits=(153, 370))
                 if int(sel) in (2, 226):
                     target.tc.actual_tc = v
                 elif int(sel) == 194:
@@ -305,6 +306,17 @@ def run_reject(res):
     for bad in (None, "100", 1.5, b"\x01", [1]):
         must_reject(f"SetDT8ColourValueTc(mirek={bad!r})", lambda: SetDT8ColourValueTc(dest, bad))
         must_reject(f"SetDT8TcLimit(mirek={bad!r})", lambda: SetDT8TcLimit(dest, 0, bad))
+    # after the same numbers were used legitimately: things that merely compare equal to them are still not integers
+    import decimal
+    import fractions
+    from models.bus import Bus
+    for n_ in (250, 0, 1, 65535, 300):
+        bus_, target_, other_, dest_ = mk_bus("short")
+        bus_.run_sequence(SetDT8ColourValueTc(dest_, n_))
+        bus_.run_sequence(SetDT8TcLimit(dest_, 0, n_))
+        for bad in (float(n_), decimal.Decimal(n_), fractions.Fraction(n_), complex(n_, 0)):
+            must_reject(f"SetDT8ColourValueTc(mirek={bad!r}) after {n_} was set", lambda: SetDT8ColourValueTc(dest, bad))
+            must_reject(f"SetDT8TcLimit(mirek={bad!r}) after {n_} was set", lambda: SetDT8TcLimit(dest, 0, bad))
     valid = {int(s) for s in QueryColourValueDTR}
     for bad in [x for x in (16, 63, 83, 127, 132, 191, 209, 241, 255, 256, -1, 1000) if x not in valid] + \
             [None, "XCoordinate", 2.0, b"\x02", QueryColourValueDTR]:
